@@ -1039,8 +1039,8 @@ def gen_multiplicity_case(rng, prec, m, form):
 
 def generate_calls(rng, tier_):
     precs = [30, 53, 100] if tier_ == "quick" else [30, 53, 100, 200, 300]
-    rep_open = 8 if tier_ == "quick" else 12
-    rep_brk = 9 if tier_ == "quick" else 12
+    rep_open = 6 if tier_ == "quick" else 12
+    rep_brk = 7 if tier_ == "quick" else 12
     rep_sys = 6 if tier_ == "quick" else 10
     rep_mn = 1 if tier_ == "quick" else 3
     rep_pr = 1 if tier_ == "quick" else 2
@@ -1066,7 +1066,7 @@ def generate_calls(rng, tier_):
                 for verify in (True, False):
                     for _ in range(rep_mn):
                         calls.append(gen_mnewton_case(rng, prec, m, deriv, verify))
-        regs = ["distinct_im", "equal_abs_im_cluster", "equal_re", "real_only", "complex_coeff", "distinct_im", "equal_abs_im_cluster",
+        regs = ["distinct_im", "equal_abs_im_cluster", "equal_re", "real_only", "complex_coeff", "distinct_im", "equal_re",
                 "repeated"]
         for deg in range(1, maxdeg + 1):
             if prec >= 200 and deg > 12 and rng.random() < 0.5:
